@@ -244,6 +244,10 @@ def delayMove (xs : List (List Char)) (name : List Char) (new : List (List Char)
 def delayMoveAll (xs : List (List Char)) (blocks : List (List Char × List (List Char))) : List (List Char) :=
   blocks.foldl (fun acc b => delayMove acc b.1 b.2) xs
 
+/-- `DelayArgument(delay_argument.expr[ind], duration)` for the new delay states in creation
+    (row-major) order: the storage position of the delayed expression each of them reads -/
+def delayArgPositions (shape : List Nat) : List Nat := (ndindex shape).map (elemPos shape)
+
 /-! ## Expressions, substitution, residual -/
 
 abbrev IMat := Mat Int
